@@ -110,7 +110,12 @@ def run(pid, P, a, seed, t0):
         results.append(r)
         all_obls.extend(r.obligations)
     lemma_obls = []
-    for name in P.get("lemmas", []):
+    lemma_names = list(P.get("lemmas", []))
+    for r in results:
+        for n in sorted(getattr(r, "lemmas_used", ())):
+            if n not in lemma_names:
+                lemma_names.append(n)
+    for name in lemma_names:
         lemma_obls.extend(LM.lemma_obligations(db, mods, name))
     all_obls.extend(lemma_obls)
     discharge(all_obls, second_backend=(a.tier == "thorough"))
